@@ -61,20 +61,26 @@ Definition status_of (s : st) (t : nat) : status :=
   if (t <? nthr s)%nat then kstatus bc (mem s) t (stk s t) else SDone.
 
 (* rounds t = number of consecutive waits fiber t performs *)
-Definition init (tw : bool) (count : Z) (rounds : list nat) : st :=
-  {| mem := kinit 2 (fun _ => 0);
+(* [start] = initial value of barrier->counter: 0 after fiber_barrier_init; the lock-step
+   cases also start from a whole number of completed rounds (a multiple of count) near
+   2^32, the state a long-lived barrier reaches after that many waits.  The model's
+   counter is an unbounded Z (the C counter is uint64: fewer than 2^64 arrivals). *)
+Definition init_at (tw : bool) (count start : Z) (rounds : list nat) : st :=
+  {| mem := kinit 2 (fun _ => start);
      stk := fun t => [Start; FC (BNext (nth t rounds O) 1)];
      nthr := length rounds; cnt := count; two := tw |}.
+Definition init (tw : bool) (count : Z) (rounds : list nat) : st := init_at tw count 0 rounds.
 
 Definition M : machine :=
   {| mstate := st; mstep := step; mstatus := status_of; mthreads := nthr |}.
 
-(* params: dmax, count [, lists]; lists = 1 selects the original one-list protocol
-   (default: two lists, the current code); a fiber's program = one op per round *)
+(* params: dmax, count [, lists [, start]]; lists = 1 selects the original one-list
+   protocol (default: two lists, the current code); start = initial counter value
+   (default 0); a fiber's program = one op per round *)
 Definition run_case (l : list Z) : list Z :=
   match decode_case l with
-  | Some c => run_all M (init (negb (nthZ (c_params c) 2 =? 1)) (nthZ (c_params c) 1)
-                              (map (@length _) (c_progs c))) [] (c_sched c)
+  | Some c => run_all M (init_at (negb (nthZ (c_params c) 2 =? 1)) (nthZ (c_params c) 1) (nthZ (c_params c) 3)
+                                 (map (@length _) (c_progs c))) [] (c_sched c)
                       (Z.to_nat (nthZ (c_params c) 0))
   | None => [(-1)%Z]
   end.
